@@ -323,10 +323,14 @@ def rule_C(ck, units):
         for f in u.funcs:
             if f.cfg is None or not f.rel().startswith('amgcl/mpi/'):
                 continue
+            f0 = f
+            f = inline.expand(f, inline.same_class_helper())       # e.g. private wait_all() / post_sends() helpers
             posts = [c for c in f.calls() if c.get('f') in ('MPI_Isend', 'MPI_Irecv')]
             if not posts:
                 continue
-            f = inline.expand(f, inline.same_class_helper())       # e.g. a private wait_all() helper
+            # a member that posts requests on behalf of other members of its class (called on *this by them) is analysed inside its callers
+            part_of_callers = bool(f0.cls) and any(g.cls == f0.cls and g.id != f0.id and g.body is not None and
+                                                   any(c.get('fd') == f0.id and (c.get('obj') is None or unwrap(c['obj'])['k'] == 'this') for c in g.calls()) for g in u.funcs)
             key = '%s|%s' % (f.rel(), f.q)
             if key in done:
                 continue
@@ -447,6 +451,8 @@ def rule_C(ck, units):
                 ck.ob('C.requests-completed', key, f.where(), not left, '' if not left else 'requests %s posted by start_exchange are not waited for in finish_exchange' % left)
             else:
                 left = sorted(str(p) for p in pending)
+                if left and part_of_callers:
+                    continue        # a posting helper: its requests are completed (or not) by the members that call it, where it is inlined
                 ck.ob('C.requests-completed', key, f.where(), not left, '' if not left else 'requests %s may still be pending when the function returns' % left)
 
 
